@@ -195,6 +195,10 @@ func (c *Cache) Exec(ctx context.Context, qCtx *query_context.Context, next sequ
 		return next.ExecNext(ctx, qCtx)
 	}
 
+	// A response that is already set was not obtained for msgKey (e.g. the
+	// question was rewritten by redirect after it was set). Never store it.
+	respBefore := qCtx.R()
+
 	cachedResp, lazyHit := getRespFromCache(msgKey, c.backend, c.args.LazyCacheTTL > 0, expiredMsgTtl)
 	if lazyHit {
 		c.lazyHitTotal.Inc()
@@ -208,7 +212,7 @@ func (c *Cache) Exec(ctx context.Context, qCtx *query_context.Context, next sequ
 
 	err := next.ExecNext(ctx, qCtx)
 
-	if r := qCtx.R(); r != nil && cachedResp != r { // pointer compare. r is not cachedResp
+	if r := qCtx.R(); r != nil && cachedResp != r && respBefore != r { // pointer compare. r is a new response
 		saveRespToCache(msgKey, r, c.backend, c.args.LazyCacheTTL)
 		c.updatedKey.Add(1)
 	}
@@ -222,6 +226,7 @@ func (c *Cache) doLazyUpdate(msgKey string, qCtx *query_context.Context, next se
 	lazyUpdateFunc := func() (any, error) {
 		defer c.lazyUpdateSF.Forget(msgKey)
 		qCtx := qCtxCopy
+		respBefore := qCtx.R()
 
 		c.logger.Debug("start lazy cache update", qCtx.InfoField())
 		ctx, cancel := context.WithTimeout(context.Background(), defaultLazyUpdateTimeout)
@@ -233,7 +238,7 @@ func (c *Cache) doLazyUpdate(msgKey string, qCtx *query_context.Context, next se
 		}
 
 		r := qCtx.R()
-		if r != nil {
+		if r != nil && r != respBefore {
 			saveRespToCache(msgKey, r, c.backend, c.args.LazyCacheTTL)
 			c.updatedKey.Add(1)
 		}
